@@ -66,6 +66,11 @@ func findItemIndex(slice []uint32, val uint32) int {
 
 // MarkSessionQer : identify and Mark session QER with flag.
 func (s *PFCPSession) MarkSessionQer(qers []qer) {
+	if len(s.pdrs) == 0 {
+		// a session without PDRs has no session QER to mark
+		return
+	}
+
 	sessQerIDList := make([]uint32, 0)
 	lastPdrIndex := len(s.pdrs) - 1
 	// create search list with first pdr's qerlist */
